@@ -387,12 +387,12 @@ func c06ConcGen(g *Gen) {
 	r := g.R
 	// minimal members: two connections, one key set each, one record per Accept
 	for n := 1; n <= 2; n++ {
-		g.c06Conc("minimal", c06Templates(n)[0], c06DefaultNames[:n], g.c06ConcProgs(0, 2, 1, n), g.Pick(2000, 4000), 1, 0, 1)
+		g.c06Conc("minimal", c06Templates(n)[0], c06DefaultNames[:n], g.c06ConcProgs(0, 2, 1, n), g.Pick(6000, 20000), 1, 0, 1)
 	}
 	// the shape of the seed's demonstration: 4 connections, (level, app), batches of 100
-	g.c06Conc("batches", "$k0-$k1", c06DefaultNames[:2], g.c06ConcProgs(0, 4, 1, 2), g.Pick(20, 60), 100, 0, 3)
+	g.c06Conc("batches", "$k0-$k1", c06DefaultNames[:2], g.c06ConcProgs(0, 4, 1, 2), g.Pick(100, 300), 100, 0, 3)
 	// budget: records per case (all goroutines together); the model runs every step of every record
-	budget := g.Pick(8000, 24000)
+	budget := g.Pick(40000, 120000)
 	for i := 0; i < g.Pick(22, 400); i++ {
 		n := r.Range(1, 3)
 		G := r.PickInt([]int{2, 2, 3, 4, 4, 6, 8})
